@@ -36,6 +36,8 @@ CONTRACTS = {
     "safe": ["-DTETL_ENABLE_CONTRACT_CHECKS_SAFE=1"],
     "ccsafe": ["-DTETL_ENABLE_CONTRACT_CHECKS=1", "-DTETL_ENABLE_CONTRACT_CHECKS_SAFE=1"],  # what the project's CMake defines when TETL_BUILD_CONTRACT_CHECKS_SAFE is ON
     "nocc": [],
+    # release build of the client (-DNDEBUG, TETL_ENABLE_ASSERTIONS not defined) with contract checks enabled: the checks must not depend on the assert configuration
+    "ccnd": ["-DTETL_ENABLE_CONTRACT_CHECKS=1", "-DNDEBUG", "-DVF_NO_ENABLE_ASSERTIONS=1"],
 }
 RUN_ENV = {
     "ASAN_OPTIONS": "detect_leaks=0:abort_on_error=0:exitcode=66:symbolize=0:allocator_may_return_null=1:detect_stack_use_after_return=0",
